@@ -15,4 +15,14 @@ theorem c04_collector_now : ∀ n ∈ Blue.Generated.lsmtkCollectorNow, n = 0 :=
 /-- `verify` leaves `MANIFEST` and the newest numbered fragment alone: two pops -/
 theorem c04_entries_popped : Blue.Generated.lsmtkVerifierEntriesPopped = 2 := by decide
 
+/-- `recover_one` takes the input of the ingest record it writes from the manifest itself
+    (`mani.info('O')`), once per log; `recover` does not parse it before its loop:
+    `Blue.Books.recoverRecs` hands each log the output of the record before -/
+theorem c04_recover_reads_output_per_log : Blue.Generated.lsmtkRecoverReadsOutputPerLog = 1 := by decide
+
+/-- `verify_one` makes the comparison `discard != computed_discard` for every edit after the first,
+    before and outside the block `discard != 0 && edit.rmed().count() > 0` that runs `verify_gc`:
+    the order of `Blue.VerifyOne.finishEdit` -/
+theorem c04_discard_check_unguarded : Blue.Generated.lsmtkVerifierDiscardCheckUnguarded = 1 := by decide
+
 end Blue.ConstsTie
